@@ -1,6 +1,7 @@
 (* C01 - write then read returns the same pose, or the write fails loudly.
    Only statements, closed by [exact], each followed by Print Assumptions. *)
 From Coq Require Import ZArith NArith List String.
+Require Import C01_Accepts.
 Require Import ListN Result Bytes Prog Codec PoseRead CodecRT PoseReadLemmas CodecGenTie C01_Examples.
 Import ListNotations.
 Open Scope N_scope.
@@ -19,6 +20,25 @@ Proof. exact read_bytes_written. Qed.
 Print Assumptions C01_write_read_roundtrip.
 
 (* the memo states over which the theorem quantifies are exactly the reachable ones *)
+(* ... and WHICH poses are accepted: [representable] is a boolean test on the pose handed to Pose.write (16-bit ranges of dimensions,
+   counts, limb and colour values; strings encodable in UTF-8 within 65535 bytes; shapes agreeing with the header; at most 2^32-1
+   frames and 65535 people; a frame rate that fits float32).  The writer succeeds iff it holds: every other pose is refused with an
+   exception - "or the write fails loudly" - and never written. *)
+Theorem C01_write_accepts_iff : forall p, is_ok (write_pose p) = representable p.
+Proof. exact write_accepts_iff. Qed.
+Print Assumptions C01_write_accepts_iff.
+Theorem C01_unrepresentable_refused : forall p, representable p = false -> exists e, write_pose p = Err e.
+Proof. exact write_refuses. Qed.
+Print Assumptions C01_unrepresentable_refused.
+Theorem C01_representable_examples :
+  representable ex_pose = true /\ representable ex_empty = true /\
+  representable {| w_dims := (65536, 1, 0)%Z; w_comps := w_comps ex_empty; w_fps := 0; w_shape := [0; 0; 0; 3]; w_data := [];
+                   w_cshape := [0; 0; 0]; w_conf := [] |} = false /\
+  representable {| w_dims := (1, 1, 0)%Z;
+                   w_comps := [ {| wc_name := [65]; wc_format := [88; 67]; wc_points := [[97]]; wc_limbs := [(0, 65536)%Z]; wc_colors := [] |} ];
+                   w_fps := 0; w_shape := [1; 1; 1; 1]; w_data := [0]; w_cshape := [1; 1; 1]; w_conf := [0] |} = false.
+Proof. exact representable_examples. Qed.
+Print Assumptions C01_representable_examples.
 Theorem C01_memo_initially_ok : MemoOK None.
 Proof. exact I. Qed.
 Print Assumptions C01_memo_initially_ok.
